@@ -120,7 +120,15 @@ class C05(Prop):
                     'executable Lean ECDSA / SHA-256 / RIPEMD-160 are validated against OpenSSL / hashlib by every '
                     'verification compared in this run',
                     'btcmodel executable = compiled Model.* / Spec.* (Lean compiler)']
-    assumptions = ['"A SIGNED INPUT IS ACCEPTED" IS NOT A THEOREM: that the library signer (OpenSSL ECDSA_sign, low-S DER) '
+    assumptions = ['OBSERVABLES COMPARED (audit 3): only accepted / verification fails (any exception of the library\'s '
+                   'families — class, message and which of two applicable errors wins are not compared; a stray Python '
+                   'exception counts as neither), the field values of the edited transaction (public attributes), the '
+                   'bytes of scripts built through the public builders (auxiliary tie of the template theorems), digests '
+                   'returned by the public RawSignatureHash inside histories. No private name is read; every library '
+                   'object is built inside guarded(), so a moved public constructor is `unobservable`, not a violation. '
+                   'Edits at positions that do not exist (the list operation raises) are OUTSIDE the statement\'s '
+                   'catalogue and tagged ood',
+                   '"A SIGNED INPUT IS ACCEPTED" IS NOT A THEOREM: that the library signer (OpenSSL ECDSA_sign, low-S DER) '
                    'produces a signature the verifier accepts is the hypothesis `horacle` of the template_accepts_* '
                    'theorems (ECDSA correctness; proving it for the Lean curve needs the group law). It is tied ONLY by '
                    'the end-to-end run: every base case must be accepted by the real VerifyScript and by the model with '
@@ -267,6 +275,21 @@ class C05(Prop):
         return t, txfmt.from_tx(fund)
 
     # ---- the edit catalogue ------------------------------------------------------------------------
+    @staticmethod
+    def inapplicable(edit, nin, nout):
+        """a field write / removal / swap at a position that does not exist: not an edit of the transaction at all (the
+        list operation raises) — outside the statement's catalogue, generated only to exercise `Spec.Commit.applicable`"""
+        f = edit.split(':')
+        if f[0] in ('ph', 'pn', 'ss', 'sq', 'ri'):
+            return int(f[1]) >= nin
+        if f[0] in ('va', 'pk', 'ro'):
+            return int(f[1]) >= nout
+        if f[0] == 'wi':
+            return int(f[1]) >= nin or int(f[2]) >= nin
+        if f[0] == 'wo':
+            return int(f[1]) >= nout or int(f[2]) >= nout
+        return False
+
     def edits(self, rng, t, idx):
         """every single edit of the catalogue for transaction t (plain values), in-range positions only"""
         nin, nout = len(t['vin']), len(t['vout'])
@@ -394,8 +417,8 @@ class C05(Prop):
 
         hts = ','.join([str(ht)] * m)                      # one hash type per signature
 
-        def case(expect, sig, edit, text=text, sub='', hts=hts):
-            return mk('c05.case', expect, cls, sig.hex(), spk.hex(), fl, text, idx, hts, edit, tag=tag + sub)
+        def case(expect, sig, edit, text=text, sub='', hts=hts, ood=False):
+            return mk('c05.case', expect, cls, sig.hex(), spk.hex(), fl, text, idx, hts, edit, tag=tag + sub, ood=ood)
         # (0) the scripts are the templates the acceptance theorems are about (Spec/Templates), built here with
         #     the library's own CScript([...]) / address classes
         kind = ('p2sh-' if p2sh else '') + base
@@ -437,7 +460,7 @@ class C05(Prop):
             edits.append('lt:%d' % (t['lock'] ^ 1))
             edits.append('sq:%d:%d' % (idx, t['vin'][idx][3] ^ 1))
         for e in edits:
-            yield case('accept', ssig, e)
+            yield case('accept', ssig, e, ood=self.inapplicable(e, nin, nout))
         if m >= 1 and (full or nin > 256):
             yield from self.history(rng, tpl, ht, t, idx, fl, keys, signers, code, spk, mk_sig, sigs, cls, tag)
         if not full:
@@ -453,7 +476,7 @@ class C05(Prop):
             mhts = ','.join(str(h) for h in mix)
             yield case('accept', mk_sig(msigs), '-', sub='/mixed', hts=mhts)
             for e in rng.sample(edits, min(14, len(edits))):
-                yield case('accept', mk_sig(msigs), e, sub='/mixed', hts=mhts)
+                yield case('accept', mk_sig(msigs), e, sub='/mixed', hts=mhts, ood=self.inapplicable(e, nin, nout))
         if m == 0:
             return                                            # no signature: nothing that could fail to verify
         # (3) signatures that must not verify
@@ -545,7 +568,7 @@ class C05(Prop):
         steps += ['E!0!sq:%d:%d' % (idx, q ^ 1), V(0, fl, 0, idx), 'H!4!0!%d!%d' % (idx, ht),
                   'E!0!sq:%d:%d' % (idx, q), V(0, fl, 0, idx),
                   'E!0!ss:%d:51' % idx, 'E!0!lt:%d' % (t['lock'] ^ 1), V(0, fl, 0, idx),
-                  'E!0!lt:%d' % t['lock'], 'E!0!ri:%d' % nin, V(3, fl, 0, idx), 'K!%d' % min(2 + m, 4)]
+                  'E!0!lt:%d' % t['lock'], V(3, fl, 0, idx), 'K!%d' % min(2 + m, 4)]
         yield mk('c05.seq', cls, '~'.join(txs), ','.join(x.hex() for x in scripts), '~'.join(steps), tag=tag + '/history')
 
     def run_history(self, cls, txs, scripts, steps):
@@ -678,34 +701,40 @@ class C05(Prop):
         if c['op'] == 'c05.case':
             expect, cls, sig, spk, fl, text, idx, ht, edit = a
             sig, spk, fl, idx = bytes.fromhex(sig), bytes.fromhex(spk), int(fl), int(idx)
-            mtx = txfmt.to_tx(txfmt.parse_tx(text), mutable=True)
-            base_tx = mtx if cls == 'm' else C.CTransaction.from_tx(mtx)
-            base = self.verify(sig, spk, base_tx, idx, fl)
-            if edit == '-':
-                return '%s#%s#%s' % (base, base, txfmt.show_tx(txfmt.from_tx(base_tx)))
-            before = txfmt.show_tx(txfmt.from_tx(mtx))
-            try:
-                self.apply_edit(mtx, edit)
-            except IndexError:
-                # the list operation itself refuses (position does not exist): the edit is not applicable; the
-                # transaction must be untouched
-                after = txfmt.show_tx(txfmt.from_tx(mtx))
-                return '%s#inapplicable#%s' % (base, after if after == before else 'TX-CHANGED:' + after)
-            etx = mtx if cls == 'm' else C.CTransaction.from_tx(mtx)
-            edited = self.verify(sig, spk, etx, idx, fl)
-            return '%s#%s#%s' % (base, edited, txfmt.show_tx(txfmt.from_tx(etx)))
+
+            def run():
+                # (inside guarded: a public constructor / attribute that a rewrite moved shows as err:harness:*,
+                #  i.e. "unobservable", not as a violation)
+                mtx = txfmt.to_tx(txfmt.parse_tx(text), mutable=True)
+                base_tx = mtx if cls == 'm' else C.CTransaction.from_tx(mtx)
+                base = self.verify(sig, spk, base_tx, idx, fl)
+                if edit == '-':
+                    return '%s#%s#%s' % (base, base, txfmt.show_tx(txfmt.from_tx(base_tx)))
+                before = txfmt.show_tx(txfmt.from_tx(mtx))
+                try:
+                    self.apply_edit(mtx, edit)
+                except (IndexError, TypeError, KeyError):
+                    # the container operation itself refuses (position does not exist): the edit is not applicable
+                    # (outside the catalogue of the statement: such cases are tagged ood); the transaction must be untouched
+                    after = txfmt.show_tx(txfmt.from_tx(mtx))
+                    return '%s#inapplicable#%s' % (base, after if after == before else 'TX-CHANGED:' + after)
+                etx = mtx if cls == 'm' else C.CTransaction.from_tx(mtx)
+                edited = self.verify(sig, spk, etx, idx, fl)
+                return '%s#%s#%s' % (base, edited, txfmt.show_tx(txfmt.from_tx(etx)))
+            out = guarded(run)
+            return out if '#' in out else '%s#%s#-' % (out, out)
         if c['op'] == 'c05.seq':
-            return self.run_history(*a)
+            return guarded(lambda: self.run_history(*a))
         if c['op'] == 'c05.tmpl':
             kind, m, keys, sigs, spk_used, ssig_used = a
             return guarded(lambda: self.lib_template(kind, int(m), [bytes.fromhex(x) for x in keys.split(',')],
                                                      [bytes.fromhex(x) for x in sigs.split(',')] if sigs else []))
         if c['op'] == 'c05.vsig':
             expect, cls, fund, text, idx = a
-            txfrom = txfmt.to_tx(txfmt.parse_tx(fund))
-            txto = txfmt.to_tx(txfmt.parse_tx(text), mutable=(cls == 'm'))
 
             def run():
+                txfrom = txfmt.to_tx(txfmt.parse_tx(fund))
+                txto = txfmt.to_tx(txfmt.parse_tx(text), mutable=(cls == 'm'))
                 E.VerifySignature(txfrom, txto, int(idx))
                 return 'ok'
             return guarded(run)
@@ -730,30 +759,46 @@ class C05(Prop):
         return bytes(spk).hex() + '#' + bytes(ssig).hex()
 
     @staticmethod
-    def _acc(expect, outcome):
-        return outcome == 'ok' if expect == 'accept' else outcome == 'err:validation'
+    def verdict(outcome):
+        """what the statement constrains: accepted, or verification FAILS — any exception of the library's families
+        (normally a ValidationError subclass: EvalScriptError, VerifyScriptError, VerifySignatureError, …); which class
+        and which message is not compared.  A stray Python exception (IndexError, TypeError, …) is neither."""
+        if outcome == 'ok':
+            return 'ok'
+        if outcome.startswith('err:') and not outcome.startswith('err:py:') and not outcome.startswith('err:harness:'):
+            return 'rej'
+        return outcome
+
+    @classmethod
+    def _acc(cls, expect, outcome):
+        return cls.verdict(outcome) == ('ok' if expect == 'accept' else 'rej')
 
     def agree(self, c, io, mo):
         if c['op'] == 'c05.seq':
             # histories: every step must equal the model's stateless answer; the first real verify must accept
-            return io == mo and io.split(';')[1] == 'ok'
+            a, b = io.split(';'), mo.split(';')
+            if len(a) != len(b) or self.verdict(a[1]) != 'ok':
+                return False
+            return all(self.verdict(x) == self.verdict(y) for x, y in zip(a, b))
         if c['op'] == 'c05.tmpl':
             # library-built == Spec template == what the harness signed and verified
             return io == mo and io == c['args'][4] + '#' + c['args'][5]
         expect = c['args'][0]
         if c['op'] == 'c05.vsig':
             if expect == 'reject-precondition':
-                # VerifySignature's own guard (outpoint does not name the funding transaction); the model line only
-                # evaluates the scripts, so only the real outcome is constrained
-                return io == 'err:validation' and mo in ('ok', 'err:validation')
-            return io == mo and self._acc(expect, io)
+                # the outpoint names another transaction (a committed part changed): verification must fail, by
+                # VerifySignature's own guard or by the signature check — which one, and with which message, is not
+                # compared; the model line only evaluates the scripts
+                return self.verdict(io) == 'rej'
+            return self.verdict(io) == self.verdict(mo) and self._acc(expect, io)
         ip = io.split('#')
         mp = mo.split('#')
         if len(ip) != 3 or len(mp) != 5:
             return False
         ibase, iedit, itx = ip
         mbase, medit, mtx, klass, pred = mp
-        if ibase != mbase or iedit != medit or itx != mtx:
+        V = self.verdict
+        if V(ibase) != V(mbase) or V(iedit) != V(medit) or itx != mtx:
             return False
         if not self._acc(expect, ibase):
             return False
@@ -765,8 +810,8 @@ class C05(Prop):
         if iedit == 'inapplicable':
             return pred == 'same'
         if pred == 'same':
-            return iedit == ibase
-        return iedit == 'err:validation'
+            return V(iedit) == V(ibase)
+        return V(iedit) == 'rej'
 
     def nontrivial(self, c, io):
         return True
